@@ -180,7 +180,7 @@ class SwitchVector(Vector):
                 raise Exception(f"Vector {self.name} does not have element {v}")
 
         elements = cast(Dict[str, Switch], self._elements)
-        for k, el in elements:
+        for k, el in elements.items():
             new_value = el.name in values
             if el.bool_value != new_value:
                 el.bool_value = new_value
